@@ -100,6 +100,10 @@ static Verdict exec_plan(asn_TYPE_descriptor_t *td, Syntax sy, Bytes S, const st
     return v;
 }
 
+// The second execution of a plan fills fresh heap memory with the complement of the first pattern (0xA5 -> 0x5A: every bit
+// differs, both non-zero) or with zeros (what a fresh page holds: "truthy" versus "falsy" garbage), chosen by the plan's hash.
+static unsigned char second_fill(const std::string &plan) { return (hash_str(plan) & 1) ? 0x5A : 0x00; }
+
 static std::string mk_sig(const Verdict &v) { return "C04/" + v.cls + "/" + v.site; }
 static std::string ops_str(const std::vector<Op> &ops) { std::string s; for(auto &o : ops) s += o.str(); return s; }
 
@@ -162,7 +166,7 @@ static void c04_run(uint64_t seed, uint64_t index, bool thorough) {
             sim_alloc_fill(1, 0xA5);
             Verdict v = exec_plan(td, sy, D, ops, &rc, &cons, &oa);
             if(!v.violated) {
-                sim_alloc_fill(1, 0x3C);
+                sim_alloc_fill(1, second_fill(hs + os));
                 Verdict v2 = exec_plan(td, sy, D, ops, nullptr, nullptr, &ob);
                 if(v2.violated) v = v2;
                 else if(oa != ob) { v.violated = true; v.cls = "uninitialised-memory-observable"; v.site = std::string(syntax_name(sy)) + "/" + kind_name(kind_of(td));
@@ -189,11 +193,15 @@ static ReplayResult c04_replay(const Plan &p) {
     sim_alloc_fill(1, 0xA5);
     Verdict v = exec_plan(td, sy, S, p.ops, nullptr, nullptr, &oa);
     if(!v.violated) {
-        sim_alloc_fill(1, 0x3C);
-        Verdict v2 = exec_plan(td, sy, S, p.ops, nullptr, nullptr, &ob);
-        if(v2.violated) v = v2;
-        else if(oa != ob) { v.violated = true; v.cls = "uninitialised-memory-observable"; v.site = std::string(syntax_name(sy)) + "/" + kind_name(kind_of(td));
-            v.detail = "return codes / print / re-encodings of the decoded structure change with the contents of freshly allocated memory"; }
+        for(unsigned char fb : {(unsigned char)0x5A, (unsigned char)0x00}) {      // a replay tries both second patterns
+            if(v.violated) break;
+            ob = 0xcbf29ce484222325ULL;
+            sim_alloc_fill(1, fb);
+            Verdict v2 = exec_plan(td, sy, S, p.ops, nullptr, nullptr, &ob);
+            if(v2.violated) v = v2;
+            else if(oa != ob) { v.violated = true; v.cls = "uninitialised-memory-observable"; v.site = std::string(syntax_name(sy)) + "/" + kind_name(kind_of(td));
+                v.detail = "return codes / print / re-encodings of the decoded structure change with the contents of freshly allocated memory"; }
+        }
     }
     sim_alloc_fill(0, 0);
     rr.violated = v.violated;
